@@ -55,6 +55,7 @@ PRIMARY = {"Network/undirected", "GeoNetwork", "ClimateNetwork", "TsonisClimateN
 
 #: cheap specs (tens of fast queries): enumerated one level deeper than the tier default
 LIGHT = {"RecurrencePlot", "RecurrencePlot/euclidean-embedded", "RecurrencePlot/missing-values",
+         "RecurrencePlot/sparse-rqa",
          "CrossRecurrencePlot", "JointRecurrencePlot", "JointRecurrencePlot/lag", "ClimateData", "Data",
          "Surrogates", "Grid", "GeoGrid", "EventSeries"}
 #: in the thorough tier these are enumerated exhaustively to length 4 as well (alphabet <= 6)
@@ -69,7 +70,7 @@ def plan(spec, tier, seed):
     if spec.name in LIGHT:
         full, samples = (3, {}) if tier == "quick" else (4, {5: 40})
     elif tier == "quick":
-        full, samples = (2, {3: 30}) if primary else (1, {2: 40, 3: 12})
+        full, samples = (2, {3: 18}) if primary else (1, {2: 30, 3: 8})
     elif spec.name in DEEP and len(names) <= 6:
         full, samples = 4, {}
     else:
@@ -104,7 +105,7 @@ class Engine:
     def prepare(self):
         spec = self.spec
         run = spec.start()
-        qs, skipped = S.discover(run.obj, spec.ctx(run), exclude=spec.exclude)
+        qs, skipped = S.discover(run.obj, spec.ctx(run), exclude=tuple(spec.exclude) + tuple(spec.exclude_c01))
         qs += list(spec.extra_queries)
         self.skipped_methods = skipped
         #  determinism probe: same query on three fresh objects, in different call orders
